@@ -864,7 +864,25 @@ def r01_9(ctx, prog, crate):
     ctx.anchor("R01.9", "Bencher::input_counter / count_inputs_as", n, 2)
 
 
+def r01_10(ctx, prog, crate):
+    """Every input counter is shown values of the type it was registered for: counters are stored type-erased and called
+    through an unchecked cast to the generator's item type, which is sound only because the input type of a Bencher is fixed
+    once - `with_inputs` exists solely on the initial configuration (no generator type parameter in its receiver), so it
+    cannot be called again after `input_counter` with a generator of another type."""
+    import re as _re
+    b = prog.body("benchmark::Bencher::with_inputs", crate)
+    if not ctx.anchor("R01.10", "Bencher::with_inputs", 1 if b else 0, 1):
+        return
+    ctx.saw(b)
+    ty = b.local_ty(1) or ""
+    ok = bool(_re.match(r"^benchmark::Bencher<(\s*'[A-Za-z_0-9]+\s*,?)*>$", ty)) or ty == "benchmark::Bencher"
+    ctx.check(ok, "R01.10", ["with_inputs", "only-on-the-initial-configuration"],
+              "Bencher::with_inputs takes `%s`: it can be called on a Bencher that already has a generator (and input counters "
+              "registered for its item type), which are then shown values of another type" % ty, b.where(0))
+
+
 def run(ctx, prog, crate):
+    r01_10(ctx, prog, crate)
     r01_8(ctx, prog, crate)
     r01_9(ctx, prog, crate)
     rec = Recorder(prog, crate)
